@@ -32,6 +32,14 @@ namespace fixture{
       throw std::runtime_error("too large");
     gsl_matrix_complex_free(m);
   }
+  // B.exc.terminate: an allocation inside a function declared non-throwing
+  double first_of_scratch(unsigned n) noexcept{
+    double* p=new double[n];
+    p[0]=1.0;
+    double r=p[0];
+    delete[] p;
+    return r;
+  }
   // E.tls.dtor: thread-local owner of heap blocks without a destructor
   struct raw_pool{ double* blocks[4]; };
   double* pool_slot(unsigned i){
